@@ -21,7 +21,7 @@ PROPS = {
         "explanation": "tbd",
     },
     "C01": {
-        "rules": [r_m1.rule_atom, r_m1.rule_one, r_m1.rule_prov, r_m1.rule_amt, r_m1.rule_clamp, r_m1.rule_endguard],
+        "rules": [r_m1.rule_atom, r_m1.rule_one, r_m1.rule_prov, r_m1.rule_amt, r_m1.rule_clamp, r_m1.rule_endguard, r_m1.rule_complete],
         "floors": {},
         "explanation": "tbd",
     },
